@@ -46,6 +46,9 @@ def run(ctx: Ctx, rep: Report) -> None:
     n += clear_rule(ctx, rep, circ)
     n += copy_ctor(ctx, rep)
     rep.floor('FIELDS', n, 30, 'field obligations')
+    # become(deepcopy=True) shares no nested container with its source
+    from ..rules.deepbranch import rule_deep_branch
+    rule_deep_branch(ctx, rep, circ)
     reserved(ctx, rep, pdata)
     reduce_rule(ctx, rep)
     state_rule(ctx, rep)
